@@ -635,7 +635,18 @@ class BuiltinMixin:
                 out.append((pf, v))
             return out
         if name == "update":
-            raise Unsupported("dict.update")
+            o = args[0]
+            if isinstance(o, VRef) and o.cls in self.classes and self.classes[o.cls].box and self.classes[o.cls].box[0] == "dict":
+                o = self.box_value(p, o)
+            if not isinstance(o, VMap) or o.ty.k != m.ty.k:
+                raise Unsupported("dict.update with a non-dict / differently keyed argument")
+            ks = [z3.Const(fresh_name("uk"), s) for s in m.ty.k.sorts()]
+            dom = z3.Lambda(ks, z3.Or(z3.Select(m.dom, *ks), z3.Select(o.dom, *ks)))
+            vals = [z3.Lambda(ks, z3.If(z3.Select(o.dom, *ks), z3.Select(b_, *ks), z3.Select(a_, *ks))) for a_, b_ in zip(m.vals, o.vals)]
+            nk = TSeq(m.ty.k).fresh("updkeys")        # insertion order after update: old keys, then the new ones (not tracked)
+            p.assume(nk.len >= m.keys.len)
+            self.write_field(p, box, "$v", VMap(dom, vals, nk, m.ty))
+            return [(p, VNone())]
         raise Unsupported(f"dict.{name}")
 
     def map_store(self, p, m: VMap, k: V, v: V) -> VMap:
